@@ -18,7 +18,8 @@ Ints == << "0", "1", "-1", "2", "255", "256", "65535", "65536", "922337203685477
 Others == << "0.0", "-0.0", "1.5", "1.0e308", "1.0e308 10.0 *", "1.0e308 10.0 * dup -", "\"\"", "\"a\"", "\"12\"",
              "@NONASCII76@", "nil", "true", "false", "[ ]", "[ 1 2 3 ]", "[ [ 1 ] \"a\" nil ]", "{ }", "{ 1 \"a\" }",
              "| |", "|ff|", "|x.x|", "|01 02 03 04 05 06 07 08 09|", "5 { } with-tags", "\"1f\" 16 \"#fmt\" insert-tag", "5 \"x\" \"#fmt\" insert-tag",
-             "\"12\" 99 \"#fmt\" insert-tag", "\"12\" 0 \"#fmt\" insert-tag", "[ 1 2 ] { 1 \"k\" } with-tags" >>
+             "\"12\" 99 \"#fmt\" insert-tag", "\"12\" 0 \"#fmt\" insert-tag", "5 70000 \"#fmt\" insert-tag", "|ff| 65536 \"#fmt\" insert-tag",
+             "[ 1 2 ] 4294967296 \"#fmt\" insert-tag", "1.5 18446744073709551615 \"#fmt\" insert-tag", "[ 1 2 ] { 1 \"k\" } with-tags" >>
 Core == << "0", "-1", "256", "9223372036854775808", "-9223372036854775808", "18446744073709551616", "170141183460469231731687303715884105727", "-170141183460469231731687303715884105728",
            "1.5", "1.0e308 10.0 * dup -", "\"\"", "@NONASCII76@", "nil", "[ 1 2 3 ]", "{ 1 \"a\" }", "|x.x|", "5 \"x\" \"#fmt\" insert-tag",
            "0 { 1 \"k\" } with-tags", "-1 { 1 \"k\" } with-tags", "|00 01| open-bitstr u8", "[ ] { 1 \"k\" } with-tags" >>
